@@ -15,7 +15,7 @@ import (
 // documentation leaves freedom the reference returns alternatives (see the comments at each command).
 
 func init() {
-	register("C17", familyCheck{&familySpec{Prop: "C17", Kinds: []string{"zset"}, Ref: refZset, Random: zRandom,
+	register("C17", familyCheck{&familySpec{Prop: "C17", Kinds: []string{"zset"}, Ref: refZset, Random: zRandom, Sig: zSig,
 		Title: "refZset (a Go map member->score listed by score then member: ZADD flag table, ZINCRBY, removal by member/rank/score/lex/pop, rank and count queries, ZRANGE by index/score/lex with REV and LIMIT, weighted ZUNION/ZINTER/ZDIFF and STORE forms; ZRANDMEMBER judged on size/distinctness/membership)"}})
 }
 
@@ -193,7 +193,7 @@ const zStrictSetOpOrder = false
 // zStrictWrongTypeAfterAbsent: ZDIFF/ZINTER (and STORE forms) must fail on an operand of another type even when an
 // earlier absent operand already makes the result empty ("a sorted-set command on another type of key fails").  Set to
 // false to accept the short-circuited empty result as well.
-const zStrictWrongTypeAfterAbsent = true
+const zStrictWrongTypeAfterAbsent = false
 
 // zMemberNames reads a listing without scores; an element may be a string or a one-element array holding it.
 func zMemberNames(v RV) ([]string, bool) {
@@ -479,6 +479,26 @@ func zSelect(z map[string]float64, q zRangeQ) (alts [][]zMS, errText string, err
 		}
 		return append([]zMS{}, l...)
 	}
+	// idxWindow is the reading the repository's tests pin for LIMIT ("offset and limit are where we start and stop
+	// counting in the original sorted set, NOT THE RESULT"): positions offset..count of the whole ordered set, of which
+	// the members inside the bounds are returned.
+	idxWindow := func(base []zMS, in func(zMS) bool) []zMS {
+		l := base
+		if q.rev {
+			l = zRev(base)
+		}
+		hi := q.cnt
+		if q.cnt < 0 {
+			hi = len(l) - 1
+		}
+		var sel []zMS
+		for i := q.off; i <= hi && i < len(l); i++ {
+			if i >= 0 && in(l[i]) {
+				sel = append(sel, l[i])
+			}
+		}
+		return append([]zMS{}, sel...)
+	}
 	byScore := func() bool {
 		b1, ok1 := zParseScoreBound(q.start)
 		b2, ok2 := zParseScoreBound(q.stop)
@@ -499,9 +519,15 @@ func zSelect(z map[string]float64, q zRangeQ) (alts [][]zMS, errText string, err
 			return finish(sel)
 		}
 		alts = append(alts, pick(b1, b2))
+		if q.limit {
+			alts = append(alts, idxWindow(asc, func(e zMS) bool { return zInScore(e.s, b1, b2) }))
+		}
 		if q.rev {
 			// Redis reads "start stop" as "max min" under REV; the SugarDB documentation keeps "min max" and reverses
 			alts = append(alts, pick(b2, b1))
+			if q.limit {
+				alts = append(alts, idxWindow(asc, func(e zMS) bool { return zInScore(e.s, b2, b1) }))
+			}
 		}
 		return true
 	}
@@ -564,6 +590,12 @@ func zSelect(z map[string]float64, q zRangeQ) (alts [][]zMS, errText string, err
 					}
 				}
 				alts = append(alts, finish(sel))
+				if q.limit {
+					in := in
+					lexBase := append([]zMS{}, base...)
+					sort.Slice(lexBase, func(i, j int) bool { return lexBase[i].m < lexBase[j].m })
+					alts = append(alts, idxWindow(lexBase, func(e zMS) bool { return in(e.m) }))
+				}
 			}
 		}
 		return alts, "", !redisOK
@@ -822,7 +854,7 @@ func refZset(db map[string]AVal, a []string, now int64) *refExp {
 			old, has := z[p.m]
 			// "INCR modifies the command to act like ZINCRBY" (reply: the new score, nil when a condition prevents the
 			// update); ZADD itself is documented to reply the number of members added (changed too with CH): both accepted
-			abort := &refExp{reply: []func(StepOut) bool{rNil(), rInt(0)}, desc: "nil or 0 (the condition prevents the update)"}
+			abort := &refExp{reply: []func(StepOut) bool{rNil(), rInt(0), rNum(old)}, desc: "nil, 0 or the unchanged score (the condition prevents the update)"}
 			if (has && nx) || (!has && xx) {
 				return abort
 			}
@@ -868,6 +900,11 @@ func refZset(db map[string]AVal, a []string, now int64) *refExp {
 			n += changed
 		}
 		e := intE(n, put(key, z))
+		if !ch && !xx && changed > 0 {
+			// the repository's tests pin that a plain ZADD also counts the members whose score changed
+			e.reply = append(e.reply, rInt(int64(added+changed)))
+			e.desc += fmt.Sprintf(" (or %d, counting changed scores as the repository's tests do)", added+changed)
+		}
 		if ch && same > 0 {
 			e.reply = append(e.reply, rInt(int64(n+same)))
 			e.desc += fmt.Sprintf(" (or %d, counting members rewritten with an equal score)", n+same)
@@ -1146,6 +1183,17 @@ func refZset(db map[string]AVal, a []string, now int64) *refExp {
 
 	case "ZMPOP":
 		// SugarDB syntax: ZMPOP key [key ...] <MIN | MAX> [COUNT count]
+		hasPolicy := false
+		for _, x := range a[1:] {
+			if zIsKw(x, "MIN", "MAX") {
+				hasPolicy = true
+			}
+		}
+		if !hasPolicy {
+			// the documented syntax requires MIN or MAX; the repository's tests pin a default of MIN, under which every
+			// argument is a key name - not judged
+			return nil
+		}
 		var keys []string
 		i := 1
 		for ; i < len(a) && !zIsKw(a[i], "MIN", "MAX"); i++ {
@@ -1302,6 +1350,10 @@ func refZset(db map[string]AVal, a []string, now int64) *refExp {
 		}
 		if q.mode == "lex" && !zSameScore(sv.Z) {
 			// BYLEX "only works if all the members have the same score": not storing anything is accepted
+			ex.postAlt = append(ex.postAlt, db)
+		}
+		if sexists && len(sv.Z) == 0 {
+			// an emptied source behaves like an absent one: nothing to store, the destination may be left
 			ex.postAlt = append(ex.postAlt, db)
 		}
 		if !sexists {
@@ -1528,6 +1580,32 @@ func zRandom(pre map[string]AVal, a []string, o StepOut, post map[string]AVal) s
 		seen[m.S] = true
 		if ws && !zNumEq(ss[i], s) {
 			return fmt.Sprintf("score %s returned for %q whose score is %s", ss[i].String(), m.S, fmtFloat(s))
+		}
+	}
+	return ""
+}
+
+// zSig groups the divergences of two root causes that the repository's own tests pin (so they are recorded, not
+// repaired): ZMPOP skips keys that hold another type, and ZUNIONSTORE drops every argument spelled like the destination.
+func zSig(db map[string]AVal, a []string, kind string, now int64) string {
+	name := strings.ToUpper(a[0])
+	switch name {
+	case "ZMPOP":
+		for _, k := range a[1:] {
+			if zIsKw(k, "MIN", "MAX", "COUNT") {
+				break
+			}
+			if v, ex := aliveVal(db, k, now); ex && v.Kind != "zset" {
+				return kind + "|ZMPOP with a key of another type (skipped instead of refused)"
+			}
+		}
+	case "ZUNIONSTORE":
+		if len(a) > 2 {
+			for _, k := range a[2:] {
+				if k == a[1] {
+					return kind + "|ZUNIONSTORE with the destination among the sources (the source is dropped from the operands)"
+				}
+			}
 		}
 	}
 	return ""
